@@ -190,8 +190,11 @@ pub fn run(ctx: &Ctx) -> i32 {
                         let fns: Vec<&String> = keys.iter().filter(|k| k.starts_with("fn_")).collect();
                         let pick = if !fns.is_empty() && rng.chance(0.7) { fns[rng.below(fns.len())].clone() } else { keys[rng.below(keys.len())].clone() };
                         let odd = *rng.pick(&["__return__", "__return__", "return", "_start", "L0", "ret_", "a0_"]);
-                        labelmap.insert(pick, odd.to_string());
-                        acc.count("renamings_with_a_reserved_looking_name", 1);
+                        // (injective: not a name the program already uses, defined or not)
+                        if !c0.printed.text.contains(odd) {
+                            labelmap.insert(pick, odd.to_string());
+                            acc.count("renamings_with_a_reserved_looking_name", 1);
+                        }
                     }
                 }
                 let p1 = rename_program(&g.prog, &regmap, &labelmap);
